@@ -287,6 +287,19 @@ func runC12(r *ev.Run) {
 				}
 				m.remove(id)
 				r.Count("ops:remove", 1)
+				if rng.IntN(3) == 0 {
+					// a REFUSED Remove (the id just removed, or one never added) changes nothing - in particular it leaves
+					// no tombstone behind that a later Flush would count
+					rid := id
+					if rng.IntN(2) == 0 {
+						rid = ids.absent()
+					}
+					hist = append(hist, histOp{Op: "remove-refused", ID: rid})
+					if err := idx.Remove(*comet.NewVectorNodeWithID(rid, nil)); err == nil {
+						rep("hnsw.remove-absent-succeeds", fmt.Sprintf("Remove(%d) of a removed / unknown id returned nil", rid))
+					}
+					r.Count("ops:remove-refused", 1)
+				}
 			case c == 9 && len(m.live) > 0 && len(m.live) <= 6:
 				// remove every live vector (no Flush), then bring one back: a removed id (update) or a fresh one
 				live := m.liveIDs()
